@@ -94,6 +94,8 @@ func checkC14(w *World, r *Report) {
 	c01HasAuthenticator(w, r, pa, "C14.4a")
 	c14Mandatory(w, r, pa, fa)
 	c14DefaultRule(w, r, pa, fa)
+	c14ConfigType(w, r)
+	c14RuleFailureFailsSet(w, r, fa)
 }
 
 // stageFields returns the names of the four pipeline fields of the rule implementation in the
